@@ -214,6 +214,7 @@ type c21Step struct {
 	Status   string            `json:"status,omitempty"`    // versioning: Enabled | Suspended
 	CopyMode string            `json:"copy_mode,omitempty"` // plain | class | replace-tags | replace-meta
 	PreUs    int               `json:"pre_us,omitempty"`
+	Leased   bool              `json:"leased,omitempty"` // the queued entry is left claimed by a foreign owner (see execLeased)
 }
 
 func c21Content(key string, client, seq, size int) []byte {
